@@ -68,7 +68,7 @@ def gen_history(rng, depth, with_expr=True):
                 if e[0] == 'name':
                     return ['name', rng.choice(names_in)]
                 if e[0] in ('lit',):
-                    return e
+                    return e if 'e' not in e[1].lower() else ['lit', '10']      # (numbers with an exponent are C02's, oracle only: this stream is tied to the model, whose lexer reads plain decimals)
                 if e[0] in ('par', 'neg'):
                     return [e[0], rename(e[1])]
                 if e[0] == 'fun':
